@@ -60,7 +60,7 @@ def gen_vectors(ctx, thorough):
                 timeout=900, label="ReflectGen[systematic]")
     fvs = ctx.tlc_cases(r)
     if thorough:
-        r = ctx.tlc("Reflect", "MC_ReflectGen", "rnd.cfg", mode="simulate", simulate=2, depth=60, workers=16,
+        r = ctx.tlc("Reflect", "MC_ReflectGen", "rnd.cfg", mode="simulate", simulate=1, depth=60, workers=16,
                     files={"rnd.cfg": GEN_CFG % ("random", "FALSE", "FALSE")}, timeout=900, label="ReflectGen[random]")
         seen = set()
         for fv in ctx.tlc_cases(r):
@@ -250,6 +250,8 @@ def trace_violation(ctx, src, k, fv, img, row, d, case):
         else:
             cls["q"] = q["q"]
             cls["via_alias_clash"] = alias_clash(img, q["f"], q["pre"]) if q["f"] else False
+            if q["q"] == "tref":
+                cls["holder"] = q["kind"]      # whose type expression was resolved: struct-like field, typedef, const
             if q["err"].startswith("panic"):
                 cls["q"] += "-panic"
         obs["rejected_answers"] = qs[:5]
@@ -423,7 +425,7 @@ def compiled(ctx, fvs, progs, imgs, descs, plan):
             raise vlib.MachineryError("thriftgo failed on universe case %s (%s): %s" % (cid, " ".join(c.cmd), c.stderr[-1500:]))
     regs, imps, code = driver_code(lab, cids, [progs[k] for k, _ in meta], [imgs[k] for k, _ in meta])
     lab.write_driver(regs, imps, code)
-    ok, out, binary = lab.build()
+    ok, out, binary = lab.build(timeout=3000)
     if not ok:
         # generated code that does not compile is C01's observation; this check cannot run without it
         raise vlib.MachineryError("generated with_reflection code of the universe does not compile:\n" + out[-3000:])
@@ -519,7 +521,7 @@ def run(ctx, args):
     plan = [(k, []) for k in range(len(progs))]
     if thorough and not args.replay:
         # a second option set (presentation-only options: the descriptors must not change)
-        plan += [(k, ["naming_style=golint", "gen_setter", "nil_safe", "json_enum_as_text"]) for k, fv in enumerate(fvs) if fv["rot"] < 2]
+        plan += [(k, ["naming_style=golint", "gen_setter", "nil_safe", "json_enum_as_text"]) for k, fv in enumerate(fvs) if fv["rot"] == 0]
     if args.replay and rp["case"].get("opts"):
         plan = [(0, [o for o in rp["case"]["opts"] if o != "with_reflection"])]
     t2, m2 = compiled(ctx, fvs, progs, imgs, descs, plan)
